@@ -17,6 +17,19 @@ def step (args : List String) : String :=
     match nats? [aL, aS, nL, l, e, sbn] with
     | some [aL, aS, nL, l, e, sbn] => showRs toString (blockLength aL aS nL l e sbn)
     | _ => "bad-op"
+  | ["rcv", _scheme, _inband, b, l, e] =>
+    -- receiver side: one write per block, of the RFC byte length; completed once, no error
+    match nats? [b, l, e] with
+    | some [b, l, e] =>
+      match blockPartitioning b l e with
+      | .error _ => "PANIC"
+      | .ok (aL, aS, nL, n) =>
+        let lens := (List.range n).map fun sbn =>
+          match blockLength aL aS nL l e sbn with
+          | .ok v => toString v
+          | .error _ => "PANIC"
+        "ok c1 e0" ++ String.join (lens.map fun x => " " ++ x)
+    | _ => "bad-op"
   | [rqp, b, l, e] =>
     if rqp = "rq" ∨ rqp = "rp" then
       match nats? [b, l, e] with
